@@ -414,6 +414,7 @@ func main() {
 	// condition under which delete removes nextRange, and the being-compacted filter of fillTablesL0ToL0
 	facts = append(facts, fact{"cond_caa_tests", "op", ifCondsWith("compaction.go", "compactStatus", "compareAndAdd", "overlapsWith"), "compaction.go:compactStatus.compareAndAdd [conditions of the if statements calling overlapsWith, in order]"})
 	facts = append(facts, fact{"cond_cstatus_delete_next", "op", ifCondsWith("compaction.go", "compactStatus", "delete", "nextRange"), "compaction.go:compactStatus.delete [condition under which nextRange is removed]"})
+	facts = append(facts, fact{"ret_getKeyRange", "op", strings.Join(strings.Fields(returnsOf("compaction.go", "", "getKeyRange")), " "), "compaction.go:getKeyRange [return expressions, in order]"})
 	l0l0Skip := "no"
 	if firstPos("levels.go", "levelsController", "fillTablesL0ToL0", "_, beingCompacted := s.cstatus.tables[t.ID()]; beingCompacted") >= 0 {
 		l0l0Skip = "yes"
